@@ -32,6 +32,7 @@ PID = "C02"
 ALPHA24 = ["", "-", "--", "---", "--=", "-=", "--flag", "--flag=x", "--name", "--name=v", "--name=", "--zzz", "--zzz=1",
            "-f", "-n", "-nv", "-z", "-fg", "-fz", "-fn", "-1", "null", "abc", "12"]
 ALPHA8 = ["", "--", "--name", "-n", "-fn", "-1", "abc", "12"]
+ALPHA6 = ["", "--", "--name", "-n", "-1", "abc"]
 SEED_TOKENS = ["--name=null", "-n=", "--flag=", "-gf", "é", "--NAME", "-nf", "srv"]
 
 
@@ -346,6 +347,9 @@ def main():
         nf = 4 if q else 8
         for first in range(nf):
             items.append(("soup", (fi, spec, ALPHA8, len_big + 1, len_small, first, nf)))
+        if rep.tier == "thorough":  # ... and one token longer over six of the eight
+            for first in range(6):
+                items.append(("soup", (fi, spec, ALPHA6, len_small + 1, len_small + 1, first, 6)))
     ff = fault_formats(rep.tier)
     seen = set()
     nff = 0
@@ -392,6 +396,7 @@ def main():
     for sig in sorted(best, key=lambda s: best[s][0]):
         rep.violation(best[sig][1])
     rep.part("a:token-soup", formats=len(fmts), alphabet=big, max_len=len_big, small_alphabet=ALPHA8, small_max_len=len_small,
+             tiny_alphabet=ALPHA6 if rep.tier == "thorough" else None, tiny_len=len_small + 1 if rep.tier == "thorough" else None,
              lines=tot["soup"], strict_outcomes=hist["soup"])
     rep.part("b:single-faults", formats=nff, valid_lines_mutated=base_lines, mutated_lines=tot["fault"], per_fault=kinds,
              strict_outcomes=hist["fault"], bare_optional_without_default_lines=bare_none)
